@@ -242,7 +242,7 @@ impl Prop for C15 {
         120
     }
     fn rule(&self) -> String {
-        "prior directory states: absent; complete and current; written by another version; written for other data (built by the real code through the asset seam); other hash; meta.json missing / empty / {} / [] / garbage / every proper prefix of the valid bytes; index directory missing under a current meta.json; index directory without tantivy's own meta.json. Each prior state x two crash-free starts (family start). Crash enumeration (family crash): prior state x every crash point N = 1..N_max of the real start under the LD_PRELOAD shim (process SIGKILLed before its N-th file-system mutation; quick: absent and other-data priors, every point; thorough: six priors, every point, each write also torn after half and after all-but-one byte), then: meta.json current => index complete (opened independently with tantivy), then two crash-free starts that must answer the probe set exactly like Db::in_memory(). Thorough adds second crashes (15 representative points) on every 10th first-level crash state. Non-trivial = the start performed at least one mutation before it was killed / a prior state other than `current`; distinct = distinct (prior, N, torn)".into()
+        "prior directory states: absent; complete and current; written by another version; written for other data (built by the real code through the asset seam); other hash; meta.json missing / empty / {} / [] / garbage / every proper prefix of the valid bytes; index directory missing under a current meta.json; index directory without tantivy's own meta.json. Each prior state x two crash-free starts (family start). Crash enumeration (family crash): prior state x every crash point N = 1..N_max of the real start under the LD_PRELOAD shim (process SIGKILLed before its N-th file-system mutation; quick: absent, other-data, index-missing and index-without-tantivy-meta priors, every point; thorough: eight priors, every point, each write also torn after half and after all-but-one byte), then: meta.json current => index complete (opened independently with tantivy), then two crash-free starts that must answer the probe set exactly like Db::in_memory(). Thorough adds second crashes (15 representative points) on every 10th first-level crash state. Non-trivial = the start performed at least one mutation before it was killed / a prior state other than `current`; distinct = distinct (prior, N, torn)".into()
     }
     fn assumptions(&self) -> Vec<String> {
         vec![
@@ -259,8 +259,8 @@ impl Prop for C15 {
             sink(Case::with("start", format!("prior=meta-prefix-{k}"), serde_json::json!({"prior": format!("meta-prefix-{k}")})));
         }
         let crash_priors: Vec<&str> = match tier {
-            Tier::Quick => vec!["absent", "other-data"],
-            Tier::Thorough => vec!["absent", "other-data", "current-stale-hash", "other-version", "meta-garbage", "index-without-tantivy-meta"],
+            Tier::Quick => vec!["absent", "other-data", "index-without-tantivy-meta", "index-missing"],
+            Tier::Thorough => vec!["absent", "other-data", "current-stale-hash", "other-version", "meta-garbage", "index-without-tantivy-meta", "index-missing", "meta-missing"],
         };
         for p in &crash_priors {
             for n in 1..=NCAP {
@@ -312,8 +312,13 @@ impl Prop for C15 {
                 return fw::fail(format!("start-failed-under-shim:{prior}"), format!("{}: start failed without being killed: {}", case.key, r.error));
             }
             nontrivial = true;
-            // never "current" before complete
-            if let Err(why) = meta_current_implies_complete(fx, &data) {
+            // never "current" before complete — judged where the prior state
+            // did not already carry a current meta.json over a damaged index
+            // (there the run has recorded nothing; what matters is recovery)
+            let prior_already_inconsistent = matches!(prior, "index-missing" | "index-without-tantivy-meta");
+            if prior_already_inconsistent {
+                // fall through to the recovery oracle
+            } else if let Err(why) = meta_current_implies_complete(fx, &data) {
                 let a = archive(&why);
                 return fw::fail(format!("current-before-complete:{prior}"), format!("{}: {why} (directory archived at {a}; last mutation before the kill: {:?})", case.key, r.log.last()));
             }
@@ -361,7 +366,7 @@ impl Prop for C15 {
         fw::pass(nontrivial, fw::hash_str(prior))
     }
     fn bounds(&self, tier: Tier) -> serde_json::Value {
-        serde_json::json!({"crash_points_cap": NCAP, "prior_states": PRIORS.len() + 80, "crash_priors": tier.pick(2, 6), "torn_variants": tier.pick(0, 2), "second_crash": tier == Tier::Thorough})
+        serde_json::json!({"crash_points_cap": NCAP, "prior_states": PRIORS.len() + 80, "crash_priors": tier.pick(4, 8), "torn_variants": tier.pick(0, 2), "second_crash": tier == Tier::Thorough})
     }
 }
 
